@@ -218,3 +218,291 @@ Proof.
   destruct (line_head_exists (r_src r) (s_start (r_pos r)) ltac:(lia)) as [h [Hh _]].
   destruct (line_offset_is_column r h Hinv Hin Hh) as [r' H]. exists r', (r_column r h). exact H.
 Qed.
+
+(* ================= util.IndentWidth ================= *)
+Lemma indent_pos_spaces k : forall c tl cur w pos, c <> 32%N -> c <> 9%N ->
+  indent_width_pos (spaces_k k ++ c :: tl) cur w pos = (w + Z.of_nat k, pos + Z.of_nat k).
+Proof.
+  unfold spaces_k. induction k as [|k IH]; intros c tl cur w pos Hc1 Hc2.
+  - cbn [repeat app indent_width_pos].
+    destruct (N.eqb_spec c 32) as [He|_]; [congruence|].
+    destruct (N.eqb_spec c 9) as [He|_]; [congruence|]. f_equal; lia.
+  - cbn [repeat app indent_width_pos]. rewrite N.eqb_refl. rewrite IH by assumption. f_equal; lia.
+Qed.
+
+Lemma indent_width_spaces k c tl cur : c <> 32%N -> c <> 9%N ->
+  indent_width (spaces_k k ++ c :: tl) cur = (Z.of_nat k, Z.of_nat k).
+Proof. intros Hc1 Hc2. unfold indent_width. rewrite indent_pos_spaces by assumption. reflexivity. Qed.
+
+Lemma indent_pos_bounds bs : forall cur w pos w' pos', indent_width_pos bs cur w pos = (w', pos') ->
+  pos <= pos' <= pos + zlen bs.
+Proof.
+  induction bs as [|c bs IH]; intros cur w pos w' pos' H; cbn [indent_width_pos] in H.
+  - injection H as _ <-. rewrite zlen_nil. lia.
+  - rewrite zlen_cons. pose proof (zlen_nonneg bs) as Hnn.
+    destruct (N.eqb c 32); [apply IH in H; lia|].
+    destruct (N.eqb c 9); [apply IH in H; lia|].
+    injection H as _ <-. lia.
+Qed.
+
+(* ================= the block-quote marker code ================= *)
+(* the part of bq_process behind the marker *)
+Definition bq_after (r : reader) (pos : Z) (d : N) : result (reader * bool) :=
+  r <- r_advance r pos ;;
+  if N.eqb d 32 || N.eqb d 9 then
+    z <- r_line_offset r ;;
+    let '(r, off2) := z in
+    let padding := if N.eqb d 9 then tab_width off2 - 1 else 0 in
+    r <- r_advance_and_set_padding r 1 padding ;;
+    Ok (r, true)
+  else Ok (r, true).
+
+(* the part of bq_process behind PeekLine and LineOffset *)
+Definition bq_tail (r : reader) (line : bytes) (off : Z) : result (reader * bool) :=
+  let '(w, pos) := indent_width line off in
+  if (3 <? w) || (zlen line <=? pos) then Ok (r, false)
+  else
+    c <- at_ line pos ;;
+    if negb (N.eqb c 62) then Ok (r, false)
+    else
+      let pos := pos + 1 in
+      if zlen line <=? pos then (r <- r_advance r pos ;; Ok (r, true))
+      else
+        d <- at_ line pos ;;
+        if N.eqb d 10 then (r <- r_advance r pos ;; Ok (r, true))
+        else bq_after r pos d.
+
+Lemma bq_process_unfold r : RInv r -> r_in_range r = true ->
+  exists r2 off, bq_process r = bq_tail r2 (r_view r) off /\ RInv r2 /\
+                 r_position r2 = r_position r /\ r_src r2 = r_src r.
+Proof.
+  intros Hinv Hin. unfold bq_process.
+  destruct (peek_line_is_view r Hinv) as [r1 [Hpk [Hinv1 [Hpos1 Hsrc1]]]].
+  rewrite Hpk, Hin. cbn [bind].
+  destruct (line_offset_ok r1 Hinv1) as [r2 [off [Hlo [Hinv2 [Hpos2 Hsrc2]]]]].
+  { rewrite (in_range_eq r r1) by assumption. exact Hin. }
+  rewrite Hlo. cbn [bind]. exists r2, off. split; [reflexivity|].
+  split; [exact Hinv2|]. split; congruence.
+Qed.
+
+Lemma bq_total_unfold r : RInv r -> r_in_range r = true -> bq_process_total r = bq_process r.
+Proof.
+  intros Hinv Hin. unfold bq_process_total.
+  destruct (peek_line_is_view r Hinv) as [r1 [Hpk _]]. rewrite Hpk, Hin. reflexivity.
+Qed.
+
+Lemma bq_tail_marker r2 line off k d : indent_width line off = (k, k) -> 0 <= k <= 3 ->
+  k + 1 < zlen line -> at_ line k = Ok 62%N -> at_ line (k + 1) = Ok d -> d <> 10%N ->
+  bq_tail r2 line off = bq_after r2 (k + 1) d.
+Proof.
+  intros Hiw Hk Hlen Hat1 Hat2 Hd. unfold bq_tail. rewrite Hiw. cbv beta iota zeta.
+  destruct (Z.ltb_spec 3 k) as [Hc|_]; [lia|]. destruct (Z.leb_spec (zlen line) k) as [Hc|_]; [lia|].
+  cbn [orb]. rewrite Hat1. cbn [bind]. change (N.eqb 62 62) with true. cbn [negb].
+  destruct (Z.leb_spec (zlen line) (k + 1)) as [Hc|_]; [lia|]. rewrite Hat2. cbn [bind].
+  destruct (N.eqb_spec d 10) as [Hc|_]; [congruence|]. reflexivity.
+Qed.
+
+Lemma marker_line_nonempty k (l : bytes) c tl : spaces_k k ++ [c] ++ tl <> [].
+Proof. intros E. apply (f_equal (@length N)) in E. rewrite !app_length in E. cbn [length] in E. lia. Qed.
+
+(* a line that starts (after at most three spaces) with the marker followed by a space: the
+   marker and that space are consumed, the reader stays on the line, padding 0 *)
+Theorem bq_process_marker_space r k tl : RInv r -> (k <= 3)%nat -> s_pad (r_pos r) = 0 ->
+  r_view r = spaces_k k ++ [62%N; 32%N] ++ tl ->
+  exists r', bq_process_total r = Ok (r', true) /\ RInv r' /\ r_src r' = r_src r /\
+             r_line r' = r_line r /\ r_view r' = tl /\ s_pad (r_pos r') = 0.
+Proof.
+  intros Hinv Hk Hp0 Hv. change ([62%N; 32%N] ++ tl) with (62%N :: 32%N :: tl) in Hv.
+  assert (r_in_range r = true) as Hin.
+  { apply view_in_range; [exact Hinv|exact Hp0|]. rewrite Hv. apply (marker_line_nonempty k [] 62%N). }
+  rewrite bq_total_unfold by assumption.
+  destruct (bq_process_unfold r Hinv Hin) as [r2 [off [Hbq [Hinv2 [Hpos2 Hsrc2]]]]].
+  pose proof (view_eq r r2 Hpos2 Hsrc2) as Hv2. rewrite Hv in Hv2.
+  assert (s_pad (r_pos r2) = 0) as Hp2.
+  { unfold r_position in Hpos2. injection Hpos2 as _ Hpp. rewrite Hpp. exact Hp0. }
+  assert (r_line r2 = r_line r) as Hl2.
+  { unfold r_position in Hpos2. injection Hpos2 as Hll _. exact Hll. }
+  pose proof (zlen_nonneg tl) as Htl.
+  assert (zlen (r_view r2) = Z.of_nat k + 2 + zlen tl) as Hlen.
+  { rewrite Hv2, zlen_app, zlen_spaces_k, !zlen_cons. lia. }
+  rewrite Hbq, Hv. rewrite (bq_tail_marker r2 _ off (Z.of_nat k) 32%N).
+  2: apply indent_width_spaces; discriminate.
+  2: lia.
+  2: rewrite <- Hv2; lia.
+  2: rewrite <- zlen_spaces_k; apply at_app_here.
+  2: rewrite <- zlen_spaces_k; apply at_app_next.
+  2: discriminate.
+  unfold bq_after.
+  destruct (advance_within_view_strong r2 (Z.of_nat k + 1) Hinv2 ltac:(lia))
+    as [r3 [Ha3 [Hinv3 [Hl3 [Hsrc3 [Hv3 [Hp3 Hin3]]]]]]].
+  { rewrite (in_range_eq r r2) by assumption. exact Hin. }
+  rewrite Ha3. cbn [bind]. change (N.eqb 32 32 || N.eqb 32 9) with true. cbv iota.
+  destruct (line_offset_ok r3 Hinv3 Hin3) as [r4 [off2 [Hlo4 [Hinv4 [Hpos4 Hsrc4]]]]].
+  rewrite Hlo4. cbn [bind]. change (N.eqb 32 9) with false. cbv iota zeta.
+  assert (r_view r3 = 32%N :: tl) as Hv3'.
+  { rewrite Hv3, Hv2. replace (Z.to_nat (Z.of_nat k + 1)) with (length (spaces_k k ++ [62%N]) + 0)%nat
+      by (rewrite app_length; unfold spaces_k; rewrite repeat_length; cbn [length]; lia).
+    replace (spaces_k k ++ 62%N :: 32%N :: tl) with ((spaces_k k ++ [62%N]) ++ 32%N :: tl)
+      by (rewrite <- app_assoc; reflexivity).
+    rewrite skipn_app_length. reflexivity. }
+  pose proof (view_eq r3 r4 Hpos4 Hsrc4) as Hv4. rewrite Hv3' in Hv4.
+  assert (s_pad (r_pos r4) = 0) as Hp4.
+  { unfold r_position in Hpos4. injection Hpos4 as _ Hpp. rewrite Hpp, Hp3, Hp2. lia. }
+  assert (r_line r4 = r_line r3) as Hl4.
+  { unfold r_position in Hpos4. injection Hpos4 as Hll _. exact Hll. }
+  destruct (advance_one r4 32%N tl Hinv4 Hp4 Hv4 ltac:(discriminate))
+    as [r5 [Ha5 [Hinv5 [Hl5 [Hsrc5 [Hv5 Hp5]]]]]].
+  unfold r_advance_and_set_padding. rewrite Ha5. cbn [bind].
+  destruct (Z.ltb_spec (s_pad (r_pos r5)) 0) as [Hneg|_]; [lia|]. cbn [bind].
+  exists r5. csplit; auto; congruence.
+Qed.
+
+(* marker not followed by a space or tab: only the marker is consumed *)
+Theorem bq_process_marker_only r k c tl : RInv r -> (k <= 3)%nat -> s_pad (r_pos r) = 0 ->
+  c <> 32%N -> c <> 9%N -> c <> 10%N ->
+  r_view r = spaces_k k ++ [62%N; c] ++ tl ->
+  exists r', bq_process_total r = Ok (r', true) /\ RInv r' /\ r_src r' = r_src r /\
+             r_line r' = r_line r /\ r_view r' = c :: tl.
+Proof.
+  intros Hinv Hk Hp0 Hc32 Hc9 Hc10 Hv. change ([62%N; c] ++ tl) with (62%N :: c :: tl) in Hv.
+  assert (r_in_range r = true) as Hin.
+  { apply view_in_range; [exact Hinv|exact Hp0|]. rewrite Hv. apply (marker_line_nonempty k [] 62%N). }
+  rewrite bq_total_unfold by assumption.
+  destruct (bq_process_unfold r Hinv Hin) as [r2 [off [Hbq [Hinv2 [Hpos2 Hsrc2]]]]].
+  pose proof (view_eq r r2 Hpos2 Hsrc2) as Hv2. rewrite Hv in Hv2.
+  assert (r_line r2 = r_line r) as Hl2.
+  { unfold r_position in Hpos2. injection Hpos2 as Hll _. exact Hll. }
+  pose proof (zlen_nonneg tl) as Htl.
+  assert (zlen (r_view r2) = Z.of_nat k + 2 + zlen tl) as Hlen.
+  { rewrite Hv2, zlen_app, zlen_spaces_k, !zlen_cons. lia. }
+  rewrite Hbq, Hv. rewrite (bq_tail_marker r2 _ off (Z.of_nat k) c).
+  2: apply indent_width_spaces; discriminate.
+  2: lia.
+  2: rewrite <- Hv2; lia.
+  2: rewrite <- zlen_spaces_k; apply at_app_here.
+  2: rewrite <- zlen_spaces_k; apply at_app_next.
+  2: exact Hc10.
+  unfold bq_after.
+  destruct (advance_within_view_strong r2 (Z.of_nat k + 1) Hinv2 ltac:(lia))
+    as [r3 [Ha3 [Hinv3 [Hl3 [Hsrc3 [Hv3 [Hp3 Hin3]]]]]]].
+  { rewrite (in_range_eq r r2) by assumption. exact Hin. }
+  rewrite Ha3. cbn [bind].
+  destruct (N.eqb_spec c 32) as [He|_]; [congruence|]. destruct (N.eqb_spec c 9) as [He|_]; [congruence|].
+  cbn [orb].
+  exists r3. csplit; auto; try congruence.
+  rewrite Hv3, Hv2. replace (Z.to_nat (Z.of_nat k + 1)) with (length (spaces_k k ++ [62%N]) + 0)%nat
+    by (rewrite app_length; unfold spaces_k; rewrite repeat_length; cbn [length]; lia).
+  replace (spaces_k k ++ 62%N :: c :: tl) with ((spaces_k k ++ [62%N]) ++ c :: tl)
+    by (rewrite <- app_assoc; reflexivity).
+  rewrite skipn_app_length. reflexivity.
+Qed.
+
+(* no marker (first non-space byte is not '>', within three columns): declined, position untouched *)
+Theorem bq_process_declines r k c tl : RInv r -> (k <= 3)%nat -> s_pad (r_pos r) = 0 ->
+  c <> 62%N -> c <> 32%N -> c <> 9%N ->
+  r_view r = spaces_k k ++ [c] ++ tl ->
+  exists r', bq_process_total r = Ok (r', false) /\ RInv r' /\ r_position r' = r_position r /\ r_src r' = r_src r.
+Proof.
+  intros Hinv Hk Hp0 Hc62 Hc32 Hc9 Hv.
+  assert (r_in_range r = true) as Hin.
+  { apply view_in_range; [exact Hinv|exact Hp0|]. rewrite Hv. apply (marker_line_nonempty k [] c). }
+  change ([c] ++ tl) with (c :: tl) in Hv.
+  rewrite bq_total_unfold by assumption.
+  destruct (bq_process_unfold r Hinv Hin) as [r2 [off [Hbq [Hinv2 [Hpos2 Hsrc2]]]]].
+  pose proof (zlen_nonneg tl) as Htl.
+  rewrite Hbq, Hv. unfold bq_tail. rewrite indent_width_spaces by assumption. cbv beta iota zeta.
+  rewrite zlen_app, zlen_spaces_k, zlen_cons.
+  destruct (Z.ltb_spec 3 (Z.of_nat k)) as [Hbad|_]; [lia|].
+  destruct (Z.leb_spec (Z.of_nat k + (1 + zlen tl)) (Z.of_nat k)) as [Hbad|_]; [lia|]. cbn [orb].
+  rewrite <- (zlen_spaces_k k). rewrite at_app_here. cbn [bind].
+  destruct (N.eqb_spec c 62) as [He|_]; [congruence|]. cbn [negb].
+  exists r2. csplit; auto.
+Qed.
+
+(* bq_process never panics on a reader that is in range *)
+Lemma bq_process_ok r : RInv r -> r_in_range r = true ->
+  exists r' b, bq_process r = Ok (r', b) /\ RInv r' /\ r_src r' = r_src r.
+Proof.
+  intros Hinv Hin.
+  destruct (bq_process_unfold r Hinv Hin) as [r2 [off [Hbq [Hinv2 [Hpos2 Hsrc2]]]]].
+  pose proof (view_eq r r2 Hpos2 Hsrc2) as Hv2.
+  pose proof (in_range_eq r r2 Hpos2 Hsrc2) as Hin2. rewrite Hin in Hin2.
+  rewrite Hbq, <- Hv2, <- Hsrc2. clear Hbq Hv2 Hsrc2 Hpos2 Hin Hinv. unfold bq_tail.
+  destruct (indent_width (r_view r2) off) as [w pos] eqn:Eiw.
+  unfold indent_width in Eiw. apply indent_pos_bounds in Eiw.
+  destruct (Z.ltb_spec 3 w) as [Hw|Hw]; cbn [orb].
+  { exists r2, false. csplit; auto. }
+  destruct (Z.leb_spec (zlen (r_view r2)) pos) as [Hpos|Hpos].
+  { exists r2, false. csplit; auto. }
+  rewrite at_nth by lia. cbn [bind].
+  destruct (negb (N.eqb (nth (Z.to_nat pos) (r_view r2) 0%N) 62)).
+  { exists r2, false. csplit; auto. }
+  cbv zeta.
+  destruct (Z.leb_spec (zlen (r_view r2)) (pos + 1)) as [Hpos1|Hpos1].
+  { destruct (advance_skips_gen r2 (pos + 1) Hinv2 ltac:(lia)) as [r3 [Ha3 [Hinv3 [Hsrc3 _]]]].
+    rewrite Ha3. cbn [bind]. exists r3, true. csplit; auto. }
+  rewrite at_nth by lia. cbn [bind].
+  destruct (N.eqb (nth (Z.to_nat (pos + 1)) (r_view r2) 0%N) 10).
+  { destruct (advance_skips_gen r2 (pos + 1) Hinv2 ltac:(lia)) as [r3 [Ha3 [Hinv3 [Hsrc3 _]]]].
+    rewrite Ha3. cbn [bind]. exists r3, true. csplit; auto. }
+  unfold bq_after.
+  destruct (advance_within_view_strong r2 (pos + 1) Hinv2 ltac:(lia) Hin2)
+    as [r3 [Ha3 [Hinv3 [Hl3 [Hsrc3 [Hv3 [Hp3 Hin3]]]]]]].
+  rewrite Ha3. cbn [bind].
+  destruct (N.eqb (nth (Z.to_nat (pos + 1)) (r_view r2) 0%N) 32 ||
+            N.eqb (nth (Z.to_nat (pos + 1)) (r_view r2) 0%N) 9).
+  2: { exists r3, true. csplit; auto. }
+  destruct (line_offset_ok r3 Hinv3 Hin3) as [r4 [off2 [Hlo4 [Hinv4 [Hpos4 Hsrc4]]]]].
+  rewrite Hlo4. cbn [bind]. cbv zeta.
+  match goal with |- context [r_advance_and_set_padding r4 1 ?p] => generalize p end.
+  intros padding. unfold r_advance_and_set_padding.
+  destruct (advance_skips_gen r4 1 Hinv4 ltac:(lia)) as [r5 [Ha5 [Hinv5 [Hsrc5 _]]]].
+  rewrite Ha5. cbn [bind]. pose proof (ri_pad r5 Hinv5) as Hpad5.
+  destruct (Z.ltb_spec (s_pad (r_pos r5)) padding) as [Hlt|Hge]; cbn [bind].
+  - destruct (set_padding_inv r5 padding Hinv5 ltac:(lia)) as [Hinv6 [Hsrc6 _]].
+    exists (r_set_padding r5 padding), true. csplit; auto. congruence.
+  - exists r5, true. csplit; auto. congruence.
+Qed.
+
+(* never panics *)
+Theorem bq_process_total_ok r : RInv r -> exists r' b, bq_process_total r = Ok (r', b) /\ RInv r' /\ r_src r' = r_src r.
+Proof.
+  intros Hinv. destruct (r_in_range r) eqn:Hin.
+  - rewrite bq_total_unfold by assumption. apply bq_process_ok; assumption.
+  - unfold bq_process_total. destruct (peek_line_is_view r Hinv) as [r1 [Hpk [Hinv1 [_ Hsrc1]]]].
+    rewrite Hpk, Hin. cbn [bind]. exists r1, false. csplit; auto.
+Qed.
+
+Lemma trim_left_bounds st v : 0 <= trim_left_space_len st v <= zlen v.
+Proof.
+  induction v as [|c v IH]; cbn [trim_left_space_len]; [change (zlen (@nil N)) with 0; lia|].
+  rewrite zlen_cons. destruct (is_space st c); lia.
+Qed.
+
+Section Tables.
+Variable space_table : list N.
+Hypothesis newline_is_space : is_space space_table 10 = true.
+
+(* a line that ends with a newline: the amount is strictly less than the line's length, so the
+   reader stays on the line (the pinned tree advanced by the full length and crossed it) *)
+Theorem rest_of_line_advance_stays line : last line 0%N = 10%N -> line <> [] ->
+  0 <= rest_of_line_advance space_table line < zlen line.
+Proof.
+  intros Hlast Hne. pose proof (app_removelast_last 0%N Hne) as E. rewrite Hlast in E.
+  set (rl := removelast line) in E. clearbody rl. subst line.
+  unfold rest_of_line_advance, trim_right_space_len. rewrite rev_app_distr. cbn [rev app].
+  cbn [trim_left_space_len]. rewrite newline_is_space.
+  pose proof (trim_left_bounds space_table (rev rl)) as Hb.
+  unfold zlen in Hb. rewrite rev_length in Hb. fold (zlen rl) in Hb.
+  rewrite zlen_app, zlen_cons. change (zlen (@nil N)) with 0. lia.
+Qed.
+
+Theorem advance_within_view_keeps_line r n : RInv r -> 0 <= n < zlen (r_view r) -> r_in_range r = true ->
+  exists r', r_advance r n = Ok r' /\ RInv r' /\ r_line r' = r_line r /\ r_src r' = r_src r /\
+             r_view r' = skipn (Z.to_nat n) (r_view r).
+Proof.
+  intros Hinv Hn Hin.
+  destruct (advance_within_view_strong r n Hinv Hn Hin) as [r' [H1 [H2 [H3 [H4 [H5 _]]]]]].
+  exists r'. csplit; auto.
+Qed.
+End Tables.
